@@ -220,7 +220,7 @@ impl Property for C06 {
         vec!["paging writes use odd ports with A15=0, A1=0 and A5-A7 set (no other device selected); decoys use A15=1 or A1=1", "the 8 bytes of bank 2 that hold the stub are not written by the history (they are restored after each instruction-level op)", "instruction-level op: instructions that read a port, or write an even port that also matches the paging decode, are don't-cares (values adopted from the machine); F3/F5, MEMPTR and Q are not compared (C01)"]
     }
     fn expected_probes(&self) -> Vec<&'static str> {
-        vec!["write_after_lock", "alias_bank5_at_c000", "alias_bank2_at_c000", "write_to_rom", "decoy_port", "sweep", "host_rom", "host_rom_midrun", "snapshot_loaded_midrun", "snapshot_rejected_midrun", "paging_on_48k", "im2_vector_fetch", "paging_by_other_out_forms", "screenshot_loaded_midrun"]
+        vec!["write_after_lock", "alias_bank5_at_c000", "alias_bank2_at_c000", "write_to_rom", "decoy_port", "sweep", "host_rom", "host_rom_midrun", "snapshot_loaded_midrun", "snapshot_rejected_midrun", "paging_on_48k", "im2_vector_fetch", "paging_by_other_out_forms", "screenshot_loaded_midrun", "host_poke", "host_poke_into_rom"]
     }
 
     fn gen(&self, rng: &mut Rng, tier: Tier, _idx: u64) -> Scenario {
@@ -272,7 +272,14 @@ impl Property for C06 {
                     sc.op("wr", &[addr, rng.u8() as i64]);
                 }
                 12..=16 => sc.op("rd", &[rng.range(0, 0xFFFF)]),
-                17 => sc.op("peek", &[rng.range(0, 0xFFFF)]),
+                17 => {
+                    if rng.chance(1, 3) {
+                        let addr = if rng.bool() { rng.range(0, 0x3FFF) } else { rng.range(0, 0xFFFF) };
+                        sc.op("poke", &[addr, rng.u8() as i64]);
+                    } else {
+                        sc.op("peek", &[rng.range(0, 0xFFFF)]);
+                    }
+                }
                 18 => {
                     if rng.chance(1, 8) {
                         sc.op("rej", &[rng.range(0, 255)]);
@@ -485,6 +492,36 @@ impl Property for C06 {
                         let a = (w * PAGE as u32 + 0x0555) as u16;
                         if e.peek(a) != m.read(a) {
                             return Err(Fail::new("C06.rejected_load_map", &format!("machine={},window={}", machine, w), format!("after a rejected snapshot file address {:04X} reads {:02X}, expected {:02X}", a, e.peek(a), m.read(a))));
+                        }
+                    }
+                }
+                "poke" => {
+                    // a host poke writes the one byte it names - RAM through the window it is seen in, ROM in the
+                    // page that is selected right now (and in no other)
+                    let addr = op.arg(0) as u16;
+                    let v = op.arg(1) as u8;
+                    if in_stub(&m, addr) {
+                        continue;
+                    }
+                    ctx.probe("host_poke");
+                    struct P1([rustzx_core::poke::PokeAction; 1]);
+                    impl rustzx_core::poke::Poke for P1 {
+                        fn actions(&self) -> &[rustzx_core::poke::PokeAction] {
+                            &self.0
+                        }
+                    }
+                    e.execute_poke(P1([rustzx_core::poke::PokeAction::mem(addr, v)]));
+                    let (rom, b) = m.window(addr as usize / PAGE);
+                    if rom {
+                        ctx.probe("host_poke_into_rom");
+                        m.roms[b as usize][addr as usize % PAGE] = v;
+                    } else {
+                        m.write(addr, v);
+                    }
+                    for w in 0..4usize {
+                        let a = (w * PAGE + addr as usize % PAGE) as u16;
+                        if e.peek(a) != m.read(a) {
+                            return Err(Fail::new("C06.poke", &format!("machine={},poked_window={},read_window={}", machine, addr as usize / PAGE, w), format!("after poking {:02X} to {:04X}, address {:04X} reads {:02X}, expected {:02X}", v, addr, a, e.peek(a), m.read(a))));
                         }
                     }
                 }
